@@ -258,6 +258,73 @@ def make_post(rnd, dim, force=None, zr=3):
     return dict(part="post", dim=dim, bounds=bounds, h=h, points=points, queries=queries, inplace=rnd.random() < 0.5)
 
 
+# =================================================================== part "bolfidef": the posterior a BOLFI object extracts
+def _bolfi_sim(t1, t2, batch_size=1, random_state=None):
+    return (np.asarray(t1) + 2.0 * np.asarray(t2) + 0.1 * random_state.randn(batch_size))[:, None]
+
+
+def _col0(y):
+    return y[:, 0]
+
+
+def record_bolfidef(sc):
+    """BOLFI with a custom surrogate that lists the parameters in ANOTHER order than the model; precomputed evidence (no
+    simulation); logpdf / gradient of the extracted posterior against the definition evaluated with GPy's predict and scipy's
+    priors in the SURROGATE's coordinate order (oracle fields)."""
+    import scipy.stats as ss
+    import elfi
+    from elfi.methods.bo.gpy_regression import GPyRegression
+    items = []
+    try:
+        with time_limit(300), warnings.catch_warnings(), np.errstate(all="ignore"):
+            warnings.simplefilter("ignore")
+            m = elfi.ElfiModel(name="c10b")
+            pri = dict(t1=(1.0, 0.5), t2=(-1.0, 2.0))
+            elfi.Prior("norm", *pri["t1"], model=m, name="t1")
+            elfi.Prior("norm", *pri["t2"], model=m, name="t2")
+            elfi.Simulator(_bolfi_sim, m["t1"], m["t2"], observed=np.array([[0.5]]), model=m, name="sim")
+            elfi.Summary(_col0, m["sim"], model=m, name="s")
+            elfi.Distance("euclidean", m["s"], model=m, name="d")
+            names = list(sc["order"])
+            bounds = dict(t1=(-3, 3), t2=(-4, 4))
+            tm = GPyRegression(names, bounds=bounds)
+            rs = np.random.RandomState(sc["seed"])
+            n = 14
+            ev = dict(t1=rs.uniform(-3, 3, n), t2=rs.uniform(-4, 4, n))
+            ev["d"] = np.abs(ev["t1"] + 2.0 * ev["t2"] - 0.5) + 0.05 * rs.rand(n)
+            b = elfi.BOLFI(m["d"], target_model=tm, initial_evidence=ev, batch_size=1, seed=1)
+            h = float(sc["h"])
+            post = b.extract_posterior(threshold=h)
+            pts = np.column_stack([rs.uniform(bounds[nm][0], bounds[nm][1], 5) for nm in names])
+            mean, var = tm.predict(pts)
+            want = ss.norm.logcdf((h - mean[:, 0]) / np.sqrt(var[:, 0]))
+            for j, nm in enumerate(names):
+                want = want + ss.norm(*pri[nm]).logpdf(pts[:, j])
+            got = np.asarray(post.logpdf(pts), dtype=float).reshape(-1)
+            one = [float(post.logpdf(x)) for x in pts]
+            fx = lambda a: [int(round(max(-2000.0, min(2000.0, float(v))) * 1e6)) for v in a]      # noqa: E731
+            items.append(dict(res="val", v=fx(got), o=fx(want), tol=20, clause="P:def"))
+            items.append(dict(res="val", v=fx(one), o=fx(want), tol=20, clause="P:def"))
+    except Hang:
+        items.append(dict(res="hang", v=[], o=[], tol=0, clause="P:def"))
+    except Exception as ex:
+        items.append(dict(res="raise:%s" % type(ex).__name__, v=[], o=[], tol=0, clause="P:def"))
+    return dict(items=items)
+
+
+def check_bolfidef(ctx, scs=None):
+    if scs is None:
+        rnd = random.Random(ctx.seed + 606)
+        scs = [dict(part="bolfidef", order=o, seed=rnd.randint(1, 10 ** 6), h=rnd.choice([1.0, 0.5, 2.0]))
+               for o in (["t2", "t1"], ["t1", "t2"])] * (1 if ctx.quick else 4)
+    traces = [record_bolfidef(sc) for sc in scs]
+    vs = ctx.validate("OracleRel_Trace", traces, name="bolfidef")
+    for sc, tr, v in zip(scs, traces, vs):
+        ctx.case(("bolfidef", tuple(sc["order"]), sc["seed"], sc["h"]), nontrivial=True)
+        if v["verdict"] != "ok":
+            ctx.fail(v["verdict"], sc, detail=tr["items"][min(v["l"] - 2, len(tr["items"]) - 1)])
+
+
 def post_scenarios(ctx):
     rnd = random.Random(ctx.seed * 7919 + 101)
     zr = 3 if ctx.quick else 4
@@ -764,6 +831,7 @@ def run(ctx):
     b_scs = bolfi_scenarios(ctx)
     scs = p_scs + s_scs + b_scs
     traces = check_scenarios(ctx, scs)
+    check_bolfidef(ctx)
     ctx.exhaustive = True
     ctx.notes.append("posterior: %d lattice-sweep + %d seeded scenarios; surrogate: %d pinned + %d of %d emitted histories; %d BOLFI runs"
                      % (n_sweep, len(p_scs) - n_sweep, n_pinned, len(s_scs) - n_pinned, n_emitted, len(b_scs)))
@@ -782,4 +850,6 @@ def run(ctx):
 
 
 def replay(ctx, scenario):
+    if scenario.get("part") == "bolfidef":
+        return check_bolfidef(ctx, [scenario])
     check_scenarios(ctx, [scenario])
